@@ -634,3 +634,366 @@ Proof.
      | None => None end).
   rewrite K. reflexivity.
 Qed.
+
+(* ================= the record ================= *)
+Definition mem (first : bool) (key vtext rest : list Z) : list Z :=
+  (if first then [] else [44]) ++ json_string key ++ 58 :: vtext ++ rest.
+
+Definition body_text (b : option (list Z)) : list Z :=
+  match b with None => [110; 117; 108; 108] | Some x => json_string (b64_encode x) end.
+
+Definition members_text (r : cres) (rest : list Z) : list Z :=
+  mem true k_attack (json_string (c_attack r))
+ (mem false k_seq (itoa (c_seq r))
+ (mem false k_code (itoa (c_code r))
+ (mem false k_ts (json_string (rfc3339 (c_ts r) (c_zone r)))
+ (mem false k_lat (itoa (c_lat r))
+ (mem false k_bout (itoa (c_bout r))
+ (mem false k_bin (itoa (c_bin r))
+ (mem false k_error (json_string (c_error r))
+ (mem false k_body (body_text (c_body r))
+ (mem false k_method (json_string (c_method r))
+ (mem false k_url (json_string (c_url r))
+ (mem false k_headers (json_headers (c_headers r)) rest))))))))))).
+
+Record jres_dom (r : cres) : Prop := {
+  jd_attack : Forall jbyte (c_attack r); jd_error : Forall jbyte (c_error r);
+  jd_method : Forall jbyte (c_method r); jd_url : Forall jbyte (c_url r);
+  jd_seq : 0 <= c_seq r < two64v; jd_code : 0 <= c_code r < 65536; jd_lat : - two63 <= c_lat r < two63;
+  jd_bout : 0 <= c_bout r < two64v; jd_bin : 0 <= c_bin r < two64v;
+  jd_zone : zone_ok (c_zone r);
+  jd_ts : 0 <= c_ts r + c_zone r * 1000000000 < 84000 * 86400 * 1000000000;
+  jd_body : forallb Base64.is_byte (opt_bytes (c_body r)) = true;
+  jd_hdr : match c_headers r with None => True | Some m => hdr_bytes m /\ NoDup (map fst m) end }.
+
+Definition hneed (r : cres) : nat := match c_headers r with None => 1%nat | Some m => (length m + total_vals m + 4)%nat end.
+
+Definition body_value (b : option (list Z)) : jv := match b with None => JNull | Some x => JStr (b64_encode x) end.
+Definition headers_value (h : option hmap) : jv := match h with None => JNull | Some m => JObj (hdr_value m) end.
+
+Definition members_value (r : cres) : list (list Z * jv) :=
+  [ (k_attack, JStr (c_attack r)); (k_seq, JNum (itoa (c_seq r))); (k_code, JNum (itoa (c_code r)));
+    (k_ts, JStr (rfc3339 (c_ts r) (c_zone r))); (k_lat, JNum (itoa (c_lat r))); (k_bout, JNum (itoa (c_bout r)));
+    (k_bin, JNum (itoa (c_bin r))); (k_error, JStr (c_error r)); (k_body, body_value (c_body r));
+    (k_method, JStr (c_method r)); (k_url, JStr (c_url r)); (k_headers, headers_value (c_headers r)) ].
+
+Lemma mem_nonws key vtext rest : nonws (mem false key vtext rest).
+Proof. unfold mem. cbn [app]. apply nonws_head; discriminate. Qed.
+
+Lemma rfc_bytes ts z : Forall jbyte (rfc3339 ts z) -> True. Proof. trivial. Qed.
+
+(* the timestamp text is plain: digits, '-', ':', 'T', '.', 'Z', '+' *)
+Lemma pad_plain n : forall x acc, forallb plainch acc = true -> forallb plainch (pad n x acc) = true.
+Proof.
+  induction n as [|n IH]; intros x acc H; cbn [pad]; [exact H|]. apply IH. cbn [forallb]. rewrite H, andb_true_r.
+  unfold plainch. pose proof (Z.mod_pos_bound x 10 ltac:(lia)) as B.
+  assert (32 <=? 48 + x mod 10 = true) as -> by (apply Z.leb_le; lia). assert (48 + x mod 10 <? 128 = true) as -> by (apply Z.ltb_lt; lia).
+  assert (48 + x mod 10 =? 34 = false) as -> by (apply Z.eqb_neq; lia). assert (48 + x mod 10 =? 92 = false) as -> by (apply Z.eqb_neq; lia).
+  assert (48 + x mod 10 =? 38 = false) as -> by (apply Z.eqb_neq; lia). assert (48 + x mod 10 =? 60 = false) as -> by (apply Z.eqb_neq; lia).
+  assert (48 + x mod 10 =? 62 = false) as -> by (apply Z.eqb_neq; lia). reflexivity.
+Qed.
+
+Lemma forallb_rev {A} (f : A -> bool) l : forallb f (rev l) = forallb f l.
+Proof. induction l as [|x tl IH]; [reflexivity|]. cbn [rev forallb]. rewrite forallb_app, IH. cbn. rewrite andb_true_r, andb_comm. reflexivity. Qed.
+
+Lemma trim_zeros_plain r : forallb plainch r = true -> forallb plainch (trim_zeros r) = true.
+Proof.
+  induction r as [|c tl IH]; intros H; [reflexivity|]. rewrite trim_zeros_eq. destruct (c =? 48); [|exact H].
+  cbn [forallb] in H. apply andb_true_iff in H as [_ H]. apply IH, H.
+Qed.
+
+Lemma rfc3339_plain ts z : forallb plainch (rfc3339 ts z) = true.
+Proof.
+  unfold rfc3339. destruct (civil_of_days ((ts + z * 1000000000) / 1000000000 / 86400)) as [[y m] d].
+  rewrite !forallb_app. rewrite !pad_plain by reflexivity. cbn [forallb andb].
+  assert (forallb plainch (frac_digits ((ts + z * 1000000000) mod 1000000000)) = true) as ->.
+  { unfold frac_digits. destruct (_ =? 0); [reflexivity|]. cbn [forallb]. rewrite forallb_rev.
+    rewrite trim_zeros_plain; [reflexivity|]. rewrite forallb_rev. apply pad_plain. reflexivity. }
+  destruct (z =? 0); [reflexivity|]. rewrite !forallb_app. rewrite !pad_plain by reflexivity. destruct (z <? 0); reflexivity.
+Qed.
+
+(* json_encode is the members text between braces *)
+Lemma json_encode_members r : forallb Base64.is_byte (opt_bytes (c_body r)) = true ->
+  json_encode r = 123 :: members_text r [125; 10].
+Proof.
+  intros Hb. unfold json_encode, members_text, mem.
+  rewrite !kw_string by reflexivity.
+  assert ([34] ++ rfc3339 (c_ts r) (c_zone r) ++ [34] = json_string (rfc3339 (c_ts r) (c_zone r))) as Et
+    by (unfold json_string; rewrite (json_escape_plain _ (rfc3339_plain _ _)); reflexivity).
+  assert ((match c_body r with None => [110; 117; 108; 108] | Some b => 34 :: b64_encode b ++ [34] end) = body_text (c_body r)) as Eb.
+  { unfold body_text. destruct (c_body r) as [b|]; [|reflexivity]. unfold json_string. cbn [opt_bytes] in Hb.
+    rewrite (json_escape_plain _ (b64_plain b Hb)). reflexivity. }
+  rewrite Eb. rewrite <- Et. fold k_attack k_seq k_code k_ts k_lat k_bout k_bin k_error k_body k_method k_url k_headers.
+  cbn [app]. rewrite <- !app_assoc. cbn [app]. reflexivity.
+Qed.
+
+Lemma pv_body f b r : forallb Base64.is_byte (opt_bytes b) = true ->
+  parse_value (S f) (body_text b ++ r) = Some (body_value b, r).
+Proof.
+  intros Hb. destruct b as [x|]; cbn [body_text body_value].
+  - apply pv_string. apply plain_jbyte, b64_plain. exact Hb.
+  - apply pv_null.
+Qed.
+
+Lemma pv_hdrs f h r : match h with None => True | Some m => hdr_bytes m /\ NoDup (map fst m) end ->
+  (match h with None => 1%nat | Some m => (length m + total_vals m + 4)%nat end <= f)%nat ->
+  parse_value f (json_headers h ++ r) = Some (headers_value h, r).
+Proof.
+  intros Hh Hf. destruct h as [m|]; cbn [headers_value].
+  - destruct Hh as [Hb _]. apply pv_headers; [exact Hb | lia].
+  - destruct f as [|f]; [lia|]. apply pv_null.
+Qed.
+
+Lemma key_bytes k : forallb plainch k = true -> Forall jbyte k. Proof. apply plain_jbyte. Qed.
+
+Lemma numch44 : numch 44 = false. Proof. reflexivity. Qed.
+
+Lemma pm_mem f key v vtext r acc (first : bool) : Forall jbyte key ->
+  parse_value f (vtext ++ r) = Some (v, r) -> nonws r ->
+  parse_members (S f) (mem first key vtext r) acc first = parse_members f r ((key, v) :: acc) false.
+Proof. intros. unfold mem. apply pm_member; assumption. Qed.
+
+Lemma members_parse r F rest : jres_dom r -> (12 + hneed r <= F)%nat ->
+  parse_members F (members_text r (125 :: rest)) [] true = Some (JObj (members_value r), rest).
+Proof.
+  intros D HF. unfold hneed in HF. do 12 (destruct F as [|F]; [lia|]).
+  unfold members_text.
+  rewrite (pm_mem _ k_attack (JStr (c_attack r))); [|apply key_bytes; reflexivity | apply pv_string, (jd_attack r D) | apply mem_nonws].
+  rewrite (pm_mem _ k_seq (JNum (itoa (c_seq r)))); [|apply key_bytes; reflexivity | unfold mem; cbn [app]; apply pv_num, numch44 | apply mem_nonws].
+  rewrite (pm_mem _ k_code (JNum (itoa (c_code r)))); [|apply key_bytes; reflexivity | unfold mem; cbn [app]; apply pv_num, numch44 | apply mem_nonws].
+  rewrite (pm_mem _ k_ts (JStr (rfc3339 (c_ts r) (c_zone r)))); [|apply key_bytes; reflexivity | apply pv_string, plain_jbyte, rfc3339_plain | apply mem_nonws].
+  rewrite (pm_mem _ k_lat (JNum (itoa (c_lat r)))); [|apply key_bytes; reflexivity | unfold mem; cbn [app]; apply pv_num, numch44 | apply mem_nonws].
+  rewrite (pm_mem _ k_bout (JNum (itoa (c_bout r)))); [|apply key_bytes; reflexivity | unfold mem; cbn [app]; apply pv_num, numch44 | apply mem_nonws].
+  rewrite (pm_mem _ k_bin (JNum (itoa (c_bin r)))); [|apply key_bytes; reflexivity | unfold mem; cbn [app]; apply pv_num, numch44 | apply mem_nonws].
+  rewrite (pm_mem _ k_error (JStr (c_error r))); [|apply key_bytes; reflexivity | apply pv_string, (jd_error r D) | apply mem_nonws].
+  rewrite (pm_mem _ k_body (body_value (c_body r))); [|apply key_bytes; reflexivity | apply pv_body, (jd_body r D) | apply mem_nonws].
+  rewrite (pm_mem _ k_method (JStr (c_method r))); [|apply key_bytes; reflexivity | apply pv_string, (jd_method r D) | apply mem_nonws].
+  rewrite (pm_mem _ k_url (JStr (c_url r))); [|apply key_bytes; reflexivity | apply pv_string, (jd_url r D) | apply mem_nonws].
+  rewrite (pm_mem _ k_headers (headers_value (c_headers r))); [|apply key_bytes; reflexivity | apply pv_hdrs; [apply (jd_hdr r D) | lia] | apply nonws_head; discriminate].
+  destruct F as [|F]; [destruct (c_headers r); lia|]. rewrite pm_end. reflexivity.
+Qed.
+
+(* ---- lengths: the fuel json_decode_line gives is enough ---- *)
+Lemma len_json_string s : (2 <= length (json_string s))%nat.
+Proof. unfold json_string. cbn [length]. rewrite app_length. cbn. lia. Qed.
+
+Lemma len_vals vs : forall f, (length vs <= length (vals_text vs f))%nat.
+Proof.
+  induction vs as [|x tl IH]; intros f; cbn [vals_text length]; [lia|]. rewrite !app_length.
+  pose proof (len_json_string x). specialize (IH false). lia.
+Qed.
+
+Lemma len_hdr m : forall f, (length m + total_vals m <= length (hdr_members m f))%nat.
+Proof.
+  induction m as [|[k vs] tl IH]; intros f; cbn [hdr_members length total_vals fold_right snd]; [lia|].
+  fold (total_vals tl). rewrite !app_length. pose proof (len_json_string k). pose proof (len_vals vs true). specialize (IH false).
+  cbn [length]. lia.
+Qed.
+
+Lemma len_mem f k v rest : (3 + length v + length rest <= length (mem f k v rest))%nat.
+Proof. unfold mem. rewrite !app_length. cbn [length]. rewrite app_length. pose proof (len_json_string k). lia. Qed.
+
+Lemma len_members r rest : (12 + hneed r <= length (members_text r rest))%nat.
+Proof.
+  unfold members_text.
+  set (m12 := mem false k_headers (json_headers (c_headers r)) rest).
+  set (m11 := mem false k_url (json_string (c_url r)) m12). set (m10 := mem false k_method (json_string (c_method r)) m11).
+  set (m9 := mem false k_body (body_text (c_body r)) m10). set (m8 := mem false k_error (json_string (c_error r)) m9).
+  set (m7 := mem false k_bin (itoa (c_bin r)) m8). set (m6 := mem false k_bout (itoa (c_bout r)) m7).
+  set (m5 := mem false k_lat (itoa (c_lat r)) m6). set (m4 := mem false k_ts (json_string (rfc3339 (c_ts r) (c_zone r))) m5).
+  set (m3 := mem false k_code (itoa (c_code r)) m4). set (m2 := mem false k_seq (itoa (c_seq r)) m3).
+  pose proof (len_mem false k_headers (json_headers (c_headers r)) rest) as L12. fold m12 in L12.
+  pose proof (len_mem false k_url (json_string (c_url r)) m12) as L11. fold m11 in L11.
+  pose proof (len_mem false k_method (json_string (c_method r)) m11) as L10. fold m10 in L10.
+  pose proof (len_mem false k_body (body_text (c_body r)) m10) as L9. fold m9 in L9.
+  pose proof (len_mem false k_error (json_string (c_error r)) m9) as L8. fold m8 in L8.
+  pose proof (len_mem false k_bin (itoa (c_bin r)) m8) as L7. fold m7 in L7.
+  pose proof (len_mem false k_bout (itoa (c_bout r)) m7) as L6. fold m6 in L6.
+  pose proof (len_mem false k_lat (itoa (c_lat r)) m6) as L5. fold m5 in L5.
+  pose proof (len_mem false k_ts (json_string (rfc3339 (c_ts r) (c_zone r))) m5) as L4. fold m4 in L4.
+  pose proof (len_mem false k_code (itoa (c_code r)) m4) as L3. fold m3 in L3.
+  pose proof (len_mem false k_seq (itoa (c_seq r)) m3) as L2. fold m2 in L2.
+  pose proof (len_mem true k_attack (json_string (c_attack r)) m2) as L1.
+  assert (hneed r <= 3 + length (json_headers (c_headers r)))%nat as Hh.
+  { unfold hneed, json_headers. destruct (c_headers r) as [m|]; [|cbn; lia]. cbn [length]. rewrite app_length. pose proof (len_hdr m true). cbn [length]. lia. }
+  lia.
+Qed.
+
+Ltac prj := cbn [c_attack c_seq c_code c_ts c_zone c_lat c_bout c_bin c_error c_body c_method c_url c_headers upd_attack res0].
+
+(* ---- the round trip of one result through the JSON codec ---- *)
+Lemma pv_object f t : parse_value (S f) (123 :: t) = parse_members f (skip_ws t) [] true.
+Proof. reflexivity. Qed.
+
+Lemma mem_true_nonws k v rest : nonws (mem true k v rest).
+Proof. unfold mem, json_string. cbn [app]. apply nonws_head; discriminate. Qed.
+
+Lemma members_text_nonws r rest : nonws (members_text r rest).
+Proof. unfold members_text. apply mem_true_nonws. Qed.
+
+Lemma json_line_parses r : jres_dom r ->
+  parse_value (S (S (length (123 :: members_text r [125])))) (123 :: members_text r [125]) = Some (JObj (members_value r), []).
+Proof.
+  intros D. rewrite pv_object. rewrite (members_text_nonws r [125]).
+  apply members_parse; [exact D|]. pose proof (len_members r [125]). cbn [length]. lia.
+Qed.
+
+(* the component lemmas carry everything: keep the big definitions folded for the kernel too *)
+Opaque set_field parse_value parse_members parse_elems json_unescape json_escape rfc3339 parse_rfc3339 itoa b64_encode b64_decode members_text json_headers.
+Theorem json_record_roundtrip_lemma r : jres_dom r ->
+  exists r', json_decode_line (123 :: members_text r [125]) = Some r' /\ cres_equal r r' = true.
+Proof.
+  intros D. unfold json_decode_line.
+  pose proof (json_line_parses r D) as Pv.
+  rewrite Pv. cbn [skip_ws]. unfold members_value.
+  set (F := fun (acc : option cres) (kv : list Z * jv) => match acc with Some r0 => set_field r0 (fst kv) (snd kv) | None => None end).
+  assert (forall k v tl r0, fold_left F ((k, v) :: tl) (Some r0) = fold_left F tl (set_field r0 k v)) as Fs by reflexivity.
+  rewrite Fs, sf_attack; prj. rewrite Fs, sf_seq by apply (jd_seq r D); prj. rewrite Fs, sf_code by apply (jd_code r D); prj.
+  rewrite Fs, sf_ts by (try apply (jd_zone r D); apply (jd_ts r D)); prj.
+  rewrite Fs, sf_lat by apply (jd_lat r D); prj. rewrite Fs, sf_bout by apply (jd_bout r D); prj. rewrite Fs, sf_bin by apply (jd_bin r D); prj.
+  rewrite Fs, sf_error; prj.
+  assert (forall r0, exists b', set_field r0 k_body (body_value (c_body r)) =
+            Some {| c_attack := c_attack r0; c_seq := c_seq r0; c_code := c_code r0; c_ts := c_ts r0; c_zone := c_zone r0; c_lat := c_lat r0;
+                    c_bout := c_bout r0; c_bin := c_bin r0; c_error := c_error r0; c_body := b'; c_method := c_method r0; c_url := c_url r0; c_headers := c_headers r0 |}
+            /\ opt_bytes b' = opt_bytes (match c_body r with None => c_body r0 | Some b => Some b end)) as Hbody.
+  { intros r0. pose proof (jd_body r D) as Hb. destruct (c_body r) as [b|]; cbn [body_value opt_bytes] in *.
+    - eexists. split; [apply sf_body; exact Hb | reflexivity].
+    - eexists. split; [apply sf_null | reflexivity]. }
+  rewrite Fs. match goal with |- context [set_field ?r0 k_body _] => destruct (Hbody r0) as (b' & Eb & Ob) end. rewrite Eb; prj. cbn [c_body] in Ob.
+  rewrite Fs, sf_method; prj. rewrite Fs, sf_url; prj.
+  assert (forall r0, c_headers r0 = None -> exists h', set_field r0 k_headers (headers_value (c_headers r)) =
+            Some {| c_attack := c_attack r0; c_seq := c_seq r0; c_code := c_code r0; c_ts := c_ts r0; c_zone := c_zone r0; c_lat := c_lat r0;
+                    c_bout := c_bout r0; c_bin := c_bin r0; c_error := c_error r0; c_body := c_body r0; c_method := c_method r0; c_url := c_url r0; c_headers := h' |}
+            /\ h' = c_headers r) as Hhdr.
+  { intros r0 H0. pose proof (jd_hdr r D) as Hh. destruct (c_headers r) as [m|]; cbn [headers_value].
+    - eexists. split; [apply sf_headers; apply Hh | reflexivity].
+    - eexists. split; [rewrite sf_null, H0; reflexivity | reflexivity]. }
+  rewrite Fs. match goal with |- context [set_field ?r0 k_headers _] => destruct (Hhdr r0 eq_refl) as (h' & Eh & Oh) end. rewrite Eh; prj.
+  cbn [fold_left].
+  eexists. split; [reflexivity|].
+  unfold cres_equal. cbn [c_attack c_seq c_code c_ts c_lat c_bin c_bout c_error c_body c_method c_url c_headers upd_attack res0].
+  rewrite !str_eqb_refl, !Z.eqb_refl. cbn [andb].
+  assert (str_eqb (opt_bytes (c_body r)) (opt_bytes b') = true) as ->.
+  { rewrite Ob. cbn [c_body res0]. destruct (c_body r); cbn [opt_bytes]; apply str_eqb_refl. }
+  cbn [andb]. subst h'. pose proof (jd_hdr r D) as Hh. destruct (c_headers r) as [m|]; [|reflexivity].
+  cbn [headers_equal]. rewrite Nat.eqb_refl. destruct Hh as [_ Hn].
+  rewrite (hmap_incl_perm m m Hn (fun kv H => H)). reflexivity.
+Qed.
+Transparent set_field parse_value parse_members parse_elems json_unescape json_escape rfc3339 parse_rfc3339 itoa b64_encode b64_decode members_text json_headers.
+
+(* ================= streams: one line per record, no raw line break inside ================= *)
+Definition no10 (s : list Z) : Prop := ~ In 10 s.
+
+Lemma no10_app a b : no10 a -> no10 b -> no10 (a ++ b).
+Proof. unfold no10. intros Ha Hb H. apply in_app_or in H as [H|H]; auto. Qed.
+
+Lemma no10_cons c s : c <> 10 -> no10 s -> no10 (c :: s).
+Proof. unfold no10. intros Hc Hs [H|H]; [congruence | auto]. Qed.
+
+Lemma hexd_no10 v : 0 <= v < 16 -> hexd v <> 10.
+Proof. intros H. unfold hexd. destruct (v <? 10) eqn:E; [apply Z.ltb_lt in E | apply Z.ltb_ge in E]; lia. Qed.
+
+Lemma escape_no10_len n : forall s, (length s <= n)%nat -> Forall jbyte s -> no10 (json_escape s).
+Proof.
+  induction n as [|n IH]; intros s Hl Hb.
+  - destruct s; [intros []|cbn in Hl; lia].
+  - destruct s as [|c tl]; [intros []|]. inversion Hb as [|? ? Hc Ht]; subst. cbn [length] in Hl. unfold jbyte in Hc.
+    assert (no10 (json_escape tl)) as Itl by (apply IH; [lia | exact Ht]).
+    cbn [json_escape]. destruct (c <? 128) eqn:E128.
+    + apply Z.ltb_lt in E128.
+      destruct (c =? 9); [repeat apply no10_cons; try discriminate; exact Itl|].
+      destruct (c =? 13); [repeat apply no10_cons; try discriminate; exact Itl|].
+      destruct (c =? 10) eqn:E10; [repeat apply no10_cons; try discriminate; exact Itl|]. apply Z.eqb_neq in E10.
+      destruct (c =? 92); [repeat apply no10_cons; try discriminate; exact Itl|].
+      destruct (c =? 34); [repeat apply no10_cons; try discriminate; exact Itl|].
+      destruct ((c <? 32) || (c =? 38) || (c =? 60) || (c =? 62)).
+      * repeat apply no10_cons; try discriminate; try (apply hexd_no10; lia); exact Itl.
+      * apply no10_cons; assumption.
+    + apply Z.ltb_ge in E128. assert (c <> 10) as Nc by lia.
+      destruct tl as [|b [|d tl3]]; try (apply no10_cons; assumption).
+      destruct ((c =? 226) && (b =? 128) && ((d =? 168) || (d =? 169))) eqn:E; [|apply no10_cons; assumption].
+      apply andb_true_iff in E as [_ Ed]. apply orb_true_iff in Ed.
+      inversion Ht as [|? ? _ Ht2]; subst. inversion Ht2 as [|? ? _ Ht3]; subst.
+      assert (no10 (json_escape tl3)) as I3 by (apply IH; [cbn [length] in Hl; lia | exact Ht3]).
+      repeat apply no10_cons; try discriminate; [|exact I3].
+      destruct Ed as [X|X]; apply Z.eqb_eq in X; subst d; discriminate.
+Qed.
+
+Lemma json_string_no10 s : Forall jbyte s -> no10 (json_string s).
+Proof.
+  intros H. unfold json_string. apply no10_cons; [discriminate|]. apply no10_app; [apply (escape_no10_len (length s)); [lia | exact H]|].
+  apply no10_cons; [discriminate | intros []].
+Qed.
+
+Lemma itoa_no10 n : no10 (itoa n).
+Proof.
+  pose proof (itoa_numch n) as H. intros X. rewrite forallb_forall in H. specialize (H 10 X). discriminate.
+Qed.
+
+Lemma mem_no10 f k v rest : Forall jbyte k -> no10 v -> no10 rest -> no10 (mem f k v rest).
+Proof.
+  intros Hk Hv Hr. unfold mem. apply no10_app; [destruct f; [intros [] | apply no10_cons; [discriminate | intros []]]|].
+  apply no10_app; [apply json_string_no10, Hk|]. apply no10_cons; [discriminate|]. apply no10_app; assumption.
+Qed.
+
+Lemma vals_no10 vs : forall f, Forall (Forall jbyte) vs -> no10 (vals_text vs f).
+Proof.
+  induction vs as [|x tl IH]; intros f H; cbn [vals_text]; [intros []|]. inversion H; subst.
+  apply no10_app; [destruct f; [intros [] | apply no10_cons; [discriminate | intros []]]|].
+  apply no10_app; [apply json_string_no10; assumption | apply IH; assumption].
+Qed.
+
+Lemma hdr_no10 m : forall f, hdr_bytes m -> no10 (hdr_members m f).
+Proof.
+  induction m as [|[k vs] tl IH]; intros f H; cbn [hdr_members]; [intros []|]. inversion H as [|? ? [Hk Hv] Ht]; subst. cbn [fst snd] in *.
+  apply no10_app; [destruct f; [intros [] | apply no10_cons; [discriminate | intros []]]|].
+  apply no10_app; [apply json_string_no10, Hk|]. apply no10_app; [repeat apply no10_cons; try discriminate; intros []|].
+  apply no10_app; [apply vals_no10, Hv|]. apply no10_app; [apply no10_cons; [discriminate | intros []] | apply IH, Ht].
+Qed.
+
+Lemma members_no10 r rest : jres_dom r -> no10 rest -> no10 (members_text r rest).
+Proof.
+  intros D Hr. unfold members_text.
+  repeat (apply mem_no10; [apply key_bytes; reflexivity | |]);
+    try apply itoa_no10; try (apply json_string_no10; first [apply (jd_attack r D) | apply (jd_error r D) | apply (jd_method r D) | apply (jd_url r D) | apply plain_jbyte, rfc3339_plain]);
+    try exact Hr.
+  - unfold body_text. destruct (c_body r) as [b|] eqn:Eb; [|repeat apply no10_cons; try discriminate; intros []].
+    apply json_string_no10, plain_jbyte, b64_plain. pose proof (jd_body r D) as Hb. rewrite Eb in Hb. exact Hb.
+  - unfold json_headers. pose proof (jd_hdr r D) as Hh. destruct (c_headers r) as [m|]; [|repeat apply no10_cons; try discriminate; intros []].
+    apply no10_cons; [discriminate|]. apply no10_app; [apply hdr_no10, Hh | apply no10_cons; [discriminate | intros []]].
+Qed.
+
+From V Require Import Proofs.FramingProofs.
+
+Definition json_line (r : cres) : list Z := 123 :: members_text r [125].
+
+Lemma mem_app f k v a b : mem f k v (a ++ b) = mem f k v a ++ b.
+Proof. unfold mem. rewrite <- !app_assoc. cbn [app]. rewrite <- app_assoc. reflexivity. Qed.
+
+Lemma members_text_app r a b : members_text r (a ++ b) = members_text r a ++ b.
+Proof. unfold members_text. rewrite !mem_app. reflexivity. Qed.
+
+Lemma json_encode_line r : forallb Base64.is_byte (opt_bytes (c_body r)) = true -> json_encode r = json_line r ++ [10].
+Proof.
+  intros H. rewrite (json_encode_members r H). unfold json_line. cbn [app]. f_equal.
+  change [125; 10] with ([125] ++ [10]). apply members_text_app.
+Qed.
+
+(* every stream of results in the domain: encoding with the JSON encoder writes one line per
+   result without a raw line break inside, and decoding returns an equal sequence *)
+Theorem json_stream_roundtrip_lemma rs : Forall jres_dom rs ->
+  exists rs', json_decode_all (flat_map json_encode rs) = Some rs' /\ Forall2 (fun a b => cres_equal a b = true) rs rs'.
+Proof.
+  intros HD. unfold json_decode_all.
+  assert (flat_map json_encode rs = enc_lines (map json_line rs) ++ []) as ->.
+  { rewrite app_nil_r. unfold enc_lines. rewrite map_map, flat_map_concat_map. f_equal.
+    apply map_ext_in. intros r Hr. rewrite Forall_forall in HD. apply json_encode_line, (jd_body r (HD r Hr)). }
+  rewrite read_lines_complete.
+  - clear - HD. induction rs as [|r tl IH]; cbn [map fold_right].
+    + exists []. split; [reflexivity | constructor].
+    + inversion HD as [|? ? D1 D2]; subst. destruct (json_record_roundtrip_lemma r D1) as (r' & E1 & Q1).
+      destruct (IH D2) as (tl' & E2 & Q2). unfold json_line at 1. rewrite E1, E2. exists (r' :: tl'). split; [reflexivity | constructor; assumption].
+  - apply Forall_forall. intros l Hl. apply in_map_iff in Hl as (r & <- & Hr). rewrite Forall_forall in HD.
+    unfold json_line. apply no10_cons; [discriminate|]. apply members_no10; [apply HD, Hr | apply no10_cons; [discriminate | intros []]].
+  - intros [].
+Qed.
